@@ -1,155 +1,102 @@
 (* C17 -- Lowering to AIR always yields well-formed, fully monomorphic IR.
-   Property theorems only; proofs live in Proofs/AirLowerProofs.v and Proofs/MonoProofs.v.
+   Property theorems only; proofs live in Proofs/AirLowerProofs.v, Proofs/AirLowerTargets.v and
+   Proofs/MonoProofs.v.
 
-   The two full-strength statements
-       lower_wf    : forall p, wf_prog (lower p) = true
-       mono_closed : forall pick p, pick_sound pick -> wf_mono p (monomorphize pick p) = true
-   are FALSE of the faithful models (the code violates the property): their refutations are
-   proved below, each on a witness reproduced on the real code (corpus/C17), together with the
-   statements that do hold. *)
-From Aelys Require Import Base.Tactics Model.AirLower Model.Mono Proofs.AirLowerProofs Proofs.AirLowerTargets Proofs.AirLowerSweep Proofs.MonoProofs.
+   History: on the tree this work started from both full statements were false of the faithful
+   models (and of the code).  Eight root causes were repaired in /repo (eb19006 5d902b4 ebefa80
+   e8c88cf e5b1019 26298e9 c2787f9 6b8cf0a, plus b3ec452); the models follow the repaired code and
+       lower_wf : forall p, wf_prog (lower p) = true
+   is now a theorem without any guard.  mono_closed is still false because of one root cause that
+   stays open (generic structs are never instantiated, KF-C17-5): its refutation is kept, and the
+   parts of mono_closed that do hold are proved. *)
+From Aelys Require Import Base.Tactics Model.AirLower Model.Mono
+  Proofs.AirLowerProofs Proofs.AirLowerTargets Proofs.MonoProofs.
 Local Open Scope N_scope.
 
-(* ---------------------------------------------------------------- lowering: refutations *)
-(* fn f(c) { if c { A } } : the branch's else-target is the merge id, which is still pending when
-   the function ends and is never materialised (finalize_function_body ignores pending_block_id) *)
-Theorem C17_dangling_merge_refuted :
-  exists p, wf_prog (lower p) = false
-            /\ lower p = [mkfn [(3, TBr 0 2); (0, TGoto 2)] (Some 2) []].
-Proof. exists w_open_merge. destruct open_merge_witness as [H1 H2]. split; assumption. Qed.
+(* ---------------------------------------------------------------- lowering *)
+(* for EVERY program (no size bound, any nesting, break/continue anywhere): every lowered
+   function has an entry block, pairwise distinct block ids, and every branch of every terminator
+   targets an existing block of the same function.  (One terminator per block holds by
+   construction of AirBlock / the model's block type.) *)
+Theorem C17_lower_wf : forall p, wf_prog (lower p) = true.
+Proof. exact lower_wf_all. Qed.
 
-Theorem C17_lower_wf_refuted : ~ (forall p, wf_prog (lower p) = true).
-Proof. intro H. specialize (H w_open_merge). destruct open_merge_witness as [_ H2]. congruence. Qed.
+Theorem C17_lower_entry_and_unique_ids :
+  forall p f, In f (lower p) -> has_entry (f_blocks f) = true /\ unique_ids (f_blocks f) = true.
+Proof. exact lower_entry_and_unique_ids. Qed.
 
-(* fn f(c,d) { if c { if d { return 1 } } A; return 2 } : the inner merge id (6) is overwritten by
-   the outer fixup_block_id_noop and block 7 branches to it, although the function ends in a statement *)
-Theorem C17_pending_overwritten_refuted :
-  exists p, wf_prog (lower p) = false
-            /\ lower p = [mkfn [(3, TBr 0 2); (7, TBr 0 6); (0, TRet); (2, TRet)] None [6]].
-Proof. exists w_overwritten. destruct overwritten_witness as [H1 H2]. split; assumption. Qed.
+Theorem C17_lower_no_dangling_target :
+  forall p f, In f (lower p) -> dangling (f_blocks f) = [].
+Proof. exact lower_no_dangling. Qed.
 
-(* nested if: the block renamed to the then-id is the last block of the branch; the real entry of
-   the then-branch (block 7, holding the inner if) is unreachable although the CFG is "well formed" *)
+(* the former counterexamples, now regression lemmas: the merge blocks exist *)
+Theorem C17_dangling_merge_repaired :
+  lower w_open_merge = [mkfn [(3, TBr 0 2); (0, TGoto 2); (2, TRet)]].
+Proof. exact (proj1 open_merge_witness). Qed.
+
+Theorem C17_pending_overwritten_repaired :
+  lower w_overwritten = [mkfn [(3, TBr 0 2); (7, TBr 0 6); (0, TRet); (6, TGoto 2); (2, TRet)]].
+Proof. exact (proj1 overwritten_witness). Qed.
+
+(* Not a clause of the property, recorded: the block renamed to the then-id is the LAST block of
+   the branch, so with a nested if the real then-entry (block 7) is unreachable although the CFG is
+   well formed (semantic defect of the renaming scheme, still present) *)
 Theorem C17_then_entry_misrenamed :
-  exists p bl, lower p = [mkfn bl None []] /\ wf_cfg bl = true /\ memN 7 (map fst bl) = true
+  exists p bl, lower p = [mkfn bl] /\ wf_cfg bl = true /\ memN 7 (map fst bl) = true
                /\ memN 7 (reachable_ids bl) = false.
 Proof.
   exists w_then_entry. eexists. destruct then_entry_witness as [H1 [H2 H3]].
   split; [exact H1|]. repeat split; try exact H3; vm_compute; reflexivity.
 Qed.
 
-(* ---------------------------------------------------------------- lowering: what does hold *)
-(* for EVERY program (no size bound, any nesting): every lowered function has an entry block and
-   its block ids are pairwise distinct.  (One terminator per block holds by construction of
-   AirBlock / the model's block type.) *)
-Theorem C17_lower_entry_and_unique_ids :
-  forall p f, In f (lower p) -> has_entry (f_blocks f) = true /\ unique_ids (f_blocks f) = true.
-Proof. exact lower_entry_and_unique_ids. Qed.
-
-(* Guarded statement about branch targets.  The guard the design expected ("the function ends in
-   a statement") is NOT sufficient (C17_pending_overwritten_refuted).  What holds, for EVERY program
-   (no size bound) whose break/continue statements sit inside a loop of the same function
-   (breaks_scoped; the bytecode compiler rejects the others with E0207):
-   every dangling branch target is a pending block id that was lost -- still pending when the
-   function ended (f_open) or overwritten by a later fixup_block_id_noop (f_dropped) ... *)
-Theorem C17_lower_dangling_only_lost :
-  forall p, breaks_scoped p = true -> forall f, In f (lower p) -> dangling_all_lost f = true.
-Proof. exact lower_dangling_only_lost. Qed.
-
-(* ... hence every function outside these two known classes is fully well formed: entry block,
-   unique ids, every branch targets an existing block of the same function *)
-Theorem C17_lower_wf_outside_known_classes :
-  forall p, breaks_scoped p = true ->
-  forall f, In f (lower p) -> known_class f = false -> wf_fn f = true.
-Proof. exact lower_wf_outside_known_classes. Qed.
-
-(* the two classes are exactly "a lost pending id is branched to" (decidable on the model's ghost
-   fields); glue used above, for any function record *)
-Theorem C17_lower_wf_when_nothing_lost :
-  forall f, has_entry (f_blocks f) = true -> unique_ids (f_blocks f) = true ->
-            dangling_all_lost f = true -> known_class f = false -> wf_fn f = true.
-Proof.
-  intros f He Hu Hl Hk. apply good_not_known_wf; [|exact Hk].
-  unfold fn_good. rewrite He, Hu, Hl. reflexivity.
-Qed.
-
-(* without the scoping guard the statement is false: `while c { fn g() { break } }` makes g jump
-   to a block id of the enclosing function (lower_function does not save loop_stack) *)
-Theorem C17_unscoped_break_refuted :
-  exists p f, In f (lower p) /\ breaks_scoped p = false /\ dangling_all_lost f = false.
-Proof.
-  exists w_unscoped, (mkfn [(0, TGoto 2)] None []).
-  destruct unscoped_break_witness as (H1 & H2 & H3). rewrite H1.
-  split; [left; reflexivity|split; assumption].
-Qed.
-
-(* Independent cross-check by computation (implied by the two theorems above; kept because it
-   exercises the model itself): complete sweep, the bound is the family S2 x tails = 367 521 one-function
-   programs: one statement of nesting depth <= 2 over {call, return, break, continue, if, if/else,
-   while, for, for-each, nested fn, closure, and-condition}, blocks of <= 2 statements, followed by
-   nothing / a call / a return): with break/continue inside a loop of the same function, every
-   dangling branch target is one of the two kinds of lost ids, and a function outside the known
-   class is well formed. *)
-Theorem C17_dangling_only_lost_bounded :
-  forall x t, In x S2 -> In t tails -> breaks_scoped (prog_of x t) = true ->
-  forall f, In f (lower (prog_of x t)) ->
-    dangling_all_lost f = true /\ (known_class f = false -> wf_fn f = true).
-Proof. exact sweep_dangling_only_lost. Qed.
-
-Example C17_sweep_family_nontrivial :
-  fold_left (fun a _ => a + 1) S2 0 = 122507
-  /\ breaks_scoped (prog_of w_member (mk_stmts [SRet])) = true
-  /\ forallb (fun f => negb (known_class f)) (lower (prog_of w_member (mk_stmts [SRet]))) = true
-  /\ wf_prog (lower (prog_of w_member (mk_stmts [SRet]))) = true.
-Proof. split; [exact (proj2 sweep_family_size)|exact sweep_nonvacuous]. Qed.
-
-(* ---------------------------------------------------------------- monomorphisation: refutations *)
-(* a generic function called at two types: whatever the HashMap order, one call site is redirected
-   to the instance made for the other type *)
-Theorem C17_first_instance_refuted :
-  forall pick, pick_sound pick -> exists p, wf_mono p (monomorphize pick p) = false.
-Proof. intros pick H. exists w_two_types. exact (first_instance_witness pick H). Qed.
-
-Theorem C17_structinit_dangling_refuted :
-  forall pick, exists p,
-    forallb (structs_exist_fn (monomorphize pick p)) (p_fns (monomorphize pick p)) = false.
-Proof. intro pick. exists w_structinit. exact (proj2 (structinit_witness pick)). Qed.
-
-Theorem C17_generic_struct_field_refuted :
-  forall pick, exists p, reachable_fields_closed (monomorphize pick p) = false.
-Proof. intro pick. exists w_generic_struct. exact (proj2 (generic_struct_witness pick)). Qed.
-
-Theorem C17_generic_callee_refuted :
-  forall pick, pick_sound pick -> exists p, wf_mono p (monomorphize pick p) = false.
-Proof. intros pick H. exists w_generic_calls_generic. exact (generic_calls_generic_witness pick H). Qed.
-
-(* ---------------------------------------------------------------- monomorphisation: what does hold *)
+(* ---------------------------------------------------------------- monomorphisation *)
 (* unbounded: monomorphisation never invents or alters a CFG, so the CFG clauses carry over *)
 Theorem C17_mono_preserves_cfg :
-  forall pick p, forallb (fun f => wf_cfg (m_blocks f)) (p_fns p) = true ->
-                 forallb (fun f => wf_cfg (m_blocks f)) (p_fns (monomorphize pick p)) = true.
+  forall p, forallb (fun f => wf_cfg (m_blocks f)) (p_fns p) = true ->
+            forallb (fun f => wf_cfg (m_blocks f)) (p_fns (monomorphize p)) = true.
 Proof. exact mono_preserves_cfg. Qed.
 
-(* bounded (complete sweep; the bound is the family [bodies]: 6175 programs with the generic
-   functions identity<T>(x), pick<T,U>(x,y), first<T>(xs: [T]) and one caller holding <= 3 call
-   sites over 17 call shapes, no struct literal / call inside a generic, no generic struct; the
-   three choice functions pick_nth 0..2 cover every order of <= 3 instances):
-   all clauses hold after monomorphisation EXACTLY when no generic function is requested at two
-   different type-argument keys. *)
-Theorem C17_mono_closed_single_instantiation_bounded :
-  forall b i, In b bodies -> In i [0; 1; 2]%nat -> single_inst (prog_with b) = true ->
-    wf_mono (prog_with b) (monomorphize (pick_nth i) (prog_with b)) = true.
-Proof. intros b i Hb Hi Hs. rewrite (mono_sweep_spec b i Hb Hi). exact Hs. Qed.
+(* unbounded: every call that monomorphize redirected targets an instance that exists in the
+   result and was created for exactly the type arguments inferred at that call site (for input
+   programs whose call sites name functions as written, which is what lower() produces) *)
+Theorem C17_mono_redirected_calls_exact :
+  forall p f n k args, plain_prog p = true ->
+    In f (p_fns (monomorphize p)) -> In (MCall (NMono n k) args) (m_body f) ->
+    call_exact p (monomorphize p) f (MCall (NMono n k) args) = true.
+Proof. exact mono_redirected_calls_exact. Qed.
 
-Theorem C17_mono_two_keys_always_break_bounded :
-  forall b i, In b bodies -> In i [0; 1; 2]%nat -> single_inst (prog_with b) = false ->
-    wf_mono (prog_with b) (monomorphize (pick_nth i) (prog_with b)) = false.
-Proof. intros b i Hb Hi Hs. rewrite (mono_sweep_spec b i Hb Hi). exact Hs. Qed.
+(* bounded (complete sweep; the bound is the family [bodies]: 9724 programs with the generic
+   functions identity<T>(x), pick<T,U>(x,y) holding a struct literal, wrap<T>(x) calling identity,
+   first<T>(xs: [T]) calling wrap, one caller with <= 3 statements over 21 shapes, no generic
+   struct): ALL clauses hold after monomorphisation -- no type parameter left, structs exist, every
+   generic call targets the instance for its argument types, also at two types and through chains *)
+Theorem C17_mono_closed_bounded :
+  forall b, In b bodies -> wf_mono (prog_with b) (monomorphize (prog_with b)) = true.
+Proof. exact mono_sweep_spec. Qed.
 
-Example C17_mono_family_nontrivial :
-  fold_left (fun a _ => a + 1) bodies 0 = 6175 /\ (forall i, pick_sound (pick_nth i)).
-Proof. split; [exact mono_family_size|exact pick_nth_sound]. Qed.
+(* the former counterexamples of KF-C17-3 / -4 / -6 *)
+Theorem C17_first_instance_repaired :
+  wf_mono w_two_types (monomorphize w_two_types) = true
+  /\ flat_map (fun f => flat_map stmt_obs (m_body f)) (p_fns (monomorphize w_two_types))
+     = [CInst 0 [T_I64]; CInst 0 [T_STR]].
+Proof. exact two_types_repaired. Qed.
 
-(* non-vacuity: a program on which everything holds *)
-Example C17_single_instantiation_example : wf_mono w_single (monomorphize pick_first w_single) = true.
-Proof. exact single_witness. Qed.
+Theorem C17_structinit_repaired :
+  wf_mono w_structinit (monomorphize w_structinit) = true.
+Proof. exact (proj1 structinit_repaired). Qed.
+
+Theorem C17_generic_callee_repaired :
+  wf_mono w_generic_calls_generic (monomorphize w_generic_calls_generic) = true.
+Proof. exact (proj1 generic_calls_generic_repaired). Qed.
+
+(* still refuted (KF-C17-5, open): a generic struct keeps its type-parameter field and is
+   reachable from a function's local *)
+Theorem C17_mono_closed_refuted : ~ (forall p, wf_mono p (monomorphize p) = true).
+Proof. intro H. specialize (H w_generic_struct). destruct generic_struct_witness as [H1 _]. congruence. Qed.
+
+Theorem C17_generic_struct_field_refuted :
+  exists p, reachable_fields_closed (monomorphize p) = false.
+Proof. exists w_generic_struct. exact (proj2 generic_struct_witness). Qed.
+
+Example C17_mono_family_nontrivial : fold_left (fun a _ => a + 1) bodies 0 = 9724.
+Proof. exact mono_family_size. Qed.
